@@ -63,6 +63,31 @@ CHECKS = {
     note='scipy interpolation is taken by contract (exact at nodes, convex, affine-equivariant); Gaussian-noise statistics, float32, >3 samples in sigmaclip (nlsat does not finish n=4) are outside; the image-level contract (img, img+c, k*img, constant, NaN block; 1-3 stripes) is executed on the real BANE only as the replay oracle.',
     technique='symbolic execution of AST backward slices of the real function on symbolic-length lists (z3 LIA) and of the real sigmaclip on z3 reals (relational, nlsat); models replayed through real BANE runs',
     design='4/C06'),
+ 'C09': dict(
+    text='Partial: the coordinate conventions handed to HEALPix. The real Region.radec2sky/sky2ang/sky2vec/vec2sky/add_circles/add_poly/sky_within and MIMAS.combine_regions run on symbolic positions with healpy replaced by argument recorders that implement only the documented ang2vec/vec2ang formulas: z3 (after trig normalisation) decides theta = pi/2 - dec, phi = ra (no swap), unit vector = (cos d cos a, cos d sin a, sin d), vec2sky inverse directions, radius and centres reach query_disc in radians exactly once (degrees converted once in combine_regions and sky_within(degin)), nside = 2**depth with the depth clamp, nest/inclusive flags, scalar and list inputs pair up.',
+    note='the covering / three-pixel / area clauses are healpy C++ and are NOT decided; they are only sampled by the replay oracle (random circles at the poles and the RA wrap, points inside and beyond radius + 3 pixels, both input units).',
+    technique='symbolic execution of the real Python source on z3 terms with units-aware trig algebra; recording stubs for the C++ library; sympy normalisation then z3 decides',
+    design='4/C09'),
+ 'C15': dict(
+    text='The real fits_tools.compress and expand run on an array of SYMBOLIC shape and a header of symbolic values with the factor enumerated (quick: 11 values incl. 1, primes, 64; thorough: 1..64): slicing/assignment, np.arange/mgrid and RegularGridInterpolator are recorders. z3 (LIA) decides for all rows, cols >= 2 (non-multiples and factor > size included): stored block = ceil(rows/f) x ceil(cols/f) plus closing row/col, sample (i,j) = data[i f, j f], nodes at i*f bracket every target index, original dimensions restored, CRPIX/CDELT or CD round trip in reals, BN_* keywords are exactly those is_compressed tests and expand deletes.',
+    note='interpolated values, float32 and file I/O are outside (interpolator taken by contract); the replay oracle runs the real functions on linear images (exact on complete cells, node values, range).',
+    technique='symbolic execution of the real Python source on symbolic shapes (z3 linear integer arithmetic), array operations recorded; models replayed through real in-memory HDUs',
+    design='4/C15'),
+ 'C16': dict(
+    text='The real WCSHelper.pix2sky/sky2pix with the WCS as uninterpreted functions plus the inverse axiom (FITS 1-based (row,col) -> W(x=col,y=row), round trip identity, origin/axis-order consistency); the real pix2sky_vec/sky2pix_vec/pix2sky_ellipse/sky2pix_ellipse/get_psf_* with a conformal first-order WCS whose scale, rotation, handedness, reference pixel/position and cos(dec0) are all symbolic and first-order planar translate/gcd/bear: full round trips return position, length(s) and angle, lengths are tangent-plane lengths, pa = atan2(East, North). Identities via the trig normaliser, z3 verdict.',
+    note='projection distortion (the 1e-3 / 0.01 deg tolerances), skewed CD matrices and psf maps are outside; spherical translate/gcd/bear are C17; the replay oracle runs the real helper on SIN/TAN/ZEA/ARC/STG headers against astropy.',
+    technique='symbolic execution of the real Python source on z3 terms (units-aware trig, radicals), uninterpreted-function and conformal-map stubs; sympy normalisation then z3 decides',
+    design='4/C16'),
+ 'C18': dict(
+    text='Partial. The real classify_catalog and write_catalog run on objects whose class (SimpleSource / IslandSource / ComponentSource / a subclass / unrelated) is chosen by the solver: buckets hold exactly the sources of each type, order kept, _comp/_isle/_simp files named and filled accordingly. The real writeFITSTable column loop runs on rows whose string lengths are symbolic: every character column is wide enough for every row (first row atypical), uncertainty columns stay floating point with the -1 marker, int/float/bool typing.',
+    note='value fidelity through astropy ascii/VOTable/FITS and sqlite is library behaviour and NOT decided; it is exercised on one mixed catalogue (csv, fits, vot) by the replay oracle.',
+    technique='symbolic execution of the real Python source with solver-chosen classes (isinstance through __class__) and symbolic string lengths (z3 LIA); I/O libraries cut; models replayed through real files',
+    design='4/C18'),
+ 'C19': dict(
+    text='Partial (DBSCAN variant and resize). Embedding lemma: the real embedding lines of regroup_dbscan give |Xi-Xj|^2 = 2-2cos(separation) for symbolic (ra,dec). Grouping: the real regroup_dbscan with DBSCAN replaced by its min_samples=1 contract over FREE symbolic pair distances (every adjacency pattern), n<=3 (4 thorough): every source in exactly one group, groups = connected components, identical partition for every row permutation, numbering 0..m-1 by decreasing peak flux, labels unique, only island/source written. The arcmin->chord conversions sliced from AeReg and priorized_fit_islands; resize(ratio): identity at 1, never shrinks, exact formula.',
+    note='scikit-learn DBSCAN is taken by contract; the elliptical variants regroup/regroup_vectorized are outside; >4 sources only in the replay oracle (real DBSCAN, 1-9 sources near poles and RA wrap, negative fluxes).',
+    technique='symbolic execution of the real Python source on z3 terms with a contract stub whose comparisons fork; relational runs for permutations; sympy normalisation then z3 decides',
+    design='4/C19'),
 }
 NA = {}
 ALL = ['C%02d' % i for i in range(1, 21)]
